@@ -74,12 +74,17 @@ theorem fill_eq (all : List Dgram) (i n f : Nat) :
       have : all.drop (i + n) = [] := List.drop_eq_nil_of_le (by omega)
       simp [this]
 
+theorem mapErr_nonpos {r : Int} (h : r ≤ 0) : mapErr r ≤ 0 := by
+  unfold mapErr UV_EAGAIN; split <;> omega
+
 theorem sendmsg1_spec (d : Dgram) (outs : List SOut) :
     ((sendmsg1 d outs).r = 1 ∧ wireOf (sendmsg1 d outs).log = [d]) ∨
     ((sendmsg1 d outs).r < 0 ∧ wireOf (sendmsg1 d outs).log = []) := by
   have hw := kRetry_wire [d] false outs
   have hr := kRetry_msg_range [d] outs rfl
   unfold sendmsg1
+  split
+  · right; exact ⟨by show UV_EINVAL < 0; decide, rfl⟩
   rcases hr with h | h
   · right; simp only [h, if_true]; refine ⟨mapErr_neg h, ?_⟩
     rw [hw]; have : (kRetry [d] false outs).r.toNat = 0 := by omega
@@ -102,30 +107,32 @@ theorem mmsgLoop_spec (all : List Dgram) (fuel i : Nat) (r : Int) (outs : List S
     simp only [mmsgLoop]
     split
     · rename_i hlt
-      have hm : fill all i all.length 0 20 = (all.drop i).take 20 := by simpa using fill_eq all i 0 20
-      have hne : (all.drop i).take 20 ≠ [] := by
-        intro h
-        have := congrArg List.length h
-        simp at this; omega
-      rw [hm]
-      have hrange := kRetry_mmsg_range _ outs hne
-      have hwk := kRetry_wire ((all.drop i).take 20) true outs
-      generalize kRetry ((all.drop i).take 20) true outs = k at hrange hwk
       split
-      · rename_i hlt1
-        have h0 : k.r.toNat = 0 := by omega
-        refine ⟨?_, hi, fun _ => by show k.r ≤ 0; omega⟩
-        simp [wireOf_append, hw, hwk, h0]
-      · rename_i hge
-        have hlen : ((all.drop i).take 20).length = min 20 (all.length - i) := by simp
-        have hk1 : 1 ≤ k.r.toNat := by omega
-        have hk2 : k.r.toNat ≤ 20 ∧ k.r.toNat ≤ all.length - i := by omega
-        apply ih
-        · omega
-        · rw [wireOf_append, hw, hwk, List.take_take]
-          have : min k.r.toNat 20 = k.r.toNat := by omega
-          rw [this, List.take_add]
-        · intro h; omega
+      · have hm : fill all i all.length 0 20 = (all.drop i).take 20 := by simpa using fill_eq all i 0 20
+        have hne : (all.drop i).take 20 ≠ [] := by
+          intro h
+          have := congrArg List.length h
+          simp at this; omega
+        rw [hm]
+        have hrange := kRetry_mmsg_range _ outs hne
+        have hwk := kRetry_wire ((all.drop i).take 20) true outs
+        generalize kRetry ((all.drop i).take 20) true outs = k at hrange hwk
+        split
+        · rename_i hlt1
+          have h0 : k.r.toNat = 0 := by omega
+          refine ⟨?_, hi, fun _ => by show k.r ≤ 0; omega⟩
+          simp [wireOf_append, hw, hwk, h0]
+        · rename_i hge
+          have hlen : ((all.drop i).take 20).length = min 20 (all.length - i) := by simp
+          have hk1 : 1 ≤ k.r.toNat := by omega
+          have hk2 : k.r.toNat ≤ 20 ∧ k.r.toNat ≤ all.length - i := by omega
+          apply ih
+          · omega
+          · rw [wireOf_append, hw, hwk, List.take_take]
+            have : min k.r.toNat 20 = k.r.toNat := by omega
+            rw [this, List.take_add]
+          · intro h; omega
+      · exact ⟨hw, hi, fun _ => by show UV_EINVAL ≤ 0; decide⟩
     · exact ⟨hw, hi, hr⟩
 
 /-- uv__udp_sendmsgv: a positive return value n means exactly datagrams 0..n-1 went to the OS; a
@@ -149,7 +156,7 @@ theorem sendmsgv_spec (all : List Dgram) (outs : List SOut) :
       simp only [hn, if_false]
       constructor
       · intro h; split at h
-        · have := mapErr_neg (r := l.r) (by assumption); omega
+        · have := mapErr_nonpos hr; omega
         · omega
       · intro _; rw [h1, hz]; simp
   · simp only [sendmsgv, hc, if_false]
@@ -161,7 +168,7 @@ theorem sendmsgv_spec (all : List Dgram) (outs : List SOut) :
       · simp [h1, vExit, h2]
       · have hne : (sendmsg1 d outs).r ≠ 0 := by omega
         have hm := mapErr_neg h1
-        simp only [hne, ne_eq, not_false_eq_true, if_true, vExit, Nat.lt_irrefl, if_false, h1, h2]
+        simp only [hne, ne_eq, not_false_eq_true, if_true, vExit, Nat.lt_irrefl, if_false, h2, Bool.false_eq_true]
         refine ⟨fun h => by omega, fun _ => trivial⟩
     | _ :: _ :: _, h => simp at h
 
@@ -183,8 +190,10 @@ theorem mmsgLoop_fuel (all : List Dgram) (count f1 f2 i nsent : Nat) (r : Int) (
       simp only [mmsgLoop]
       split
       · split
+        · split
+          · rfl
+          · apply ih <;> omega
         · rfl
-        · apply ih <;> omega
       · rfl
 
 end UvModel.Udp
@@ -1128,13 +1137,16 @@ theorem mmsgLoop_nsent_ge (all : List Dgram) (count : Nat) :
     simp only [mmsgLoop]
     split
     · split
+      · split
+        · exact Nat.le_refl _
+        · exact Nat.le_trans (Nat.le_add_right _ _) (ih _ _ _ _ _)
       · exact Nat.le_refl _
-      · exact Nat.le_trans (Nat.le_add_right _ _) (ih _ _ _ _ _)
     · exact Nat.le_refl _
 
 /-- uv__udp_sendmsgv returning an error: nothing was sent and the error is (the mapped errno of) a failed system
 call whose first datagram is the first of the batch -/
-theorem sendmsgv_err (all : List Dgram) (outs : List SOut) (h : (sendmsgv all outs).ret < 0) :
+theorem sendmsgv_err (all : List Dgram) (outs : List SOut) (hall : ∀ d ∈ all, prepOk d = true)
+    (h : (sendmsgv all outs).ret < 0) :
     ∃ k ∈ (sendmsgv all outs).log, k.res < 0 ∧ k.offered.head? = all.head? ∧ (sendmsgv all outs).ret = mapErr k.res := by
   by_cases hc : all.length > 1
   · simp only [sendmsgv, hc, if_true] at h ⊢
@@ -1142,16 +1154,20 @@ theorem sendmsgv_err (all : List Dgram) (outs : List SOut) (h : (sendmsgv all ou
     simp only [mmsgLoop, show 0 < all.length by omega, if_true, List.nil_append] at h ⊢
     have hm : fill all 0 all.length 0 20 = all.take 20 := by simpa using fill_eq all 0 0 20
     rw [hm] at h ⊢
+    have hall20 : (all.take 20).all prepOk = true := by
+      rw [List.all_eq_true]; intro d hd; exact hall d (List.mem_of_mem_take hd)
+    simp only [hall20, if_true] at h ⊢
     split at h
     · rename_i hlt
       simp only [hlt, if_true]
-      simp only [vExit, Nat.lt_irrefl, if_false] at h ⊢
+      simp only [vExit, Nat.lt_irrefl, if_false, if_true] at h ⊢
       have hneg : (kRetry (all.take 20) true outs).r < 0 := by
         by_cases hn : (kRetry (all.take 20) true outs).r < 0
         · exact hn
-        · simp only [hn, if_false] at h
+        · have h0 : (kRetry (all.take 20) true outs).r = 0 := by omega
+          rw [h0] at h; simp [mapErr, UV_EAGAIN, EAGAIN, ENOBUFS] at h
       obtain ⟨k, hk, h1, h2⟩ := kRetry_err _ _ _ hneg
-      refine ⟨k, hk, by omega, ?_, by simp [hneg, h1]⟩
+      refine ⟨k, hk, by omega, ?_, by rw [h1]⟩
       rw [h2]; cases all with
       | nil => simp at hc
       | cons a t => simp
@@ -1171,13 +1187,14 @@ theorem sendmsgv_err (all : List Dgram) (outs : List SOut) (h : (sendmsgv all ou
     | [d], _ =>
       simp only [msgLoop, List.nil_append] at h ⊢
       have hr := kRetry_msg_range [d] outs rfl
-      unfold sendmsg1 at h ⊢
+      have hp : prepOk d = true := hall d (by simp)
+      simp only [sendmsg1, hp, Bool.not_true, Bool.false_eq_true, if_false] at h ⊢
       rcases hr with hneg | h1
       · have hm := mapErr_neg hneg
         have hne : mapErr (kRetry [d] false outs).r ≠ 0 := by omega
-        simp only [hneg, if_true, hne, ne_eq, not_false_eq_true, vExit, Nat.lt_irrefl, if_false, hm] at h ⊢
+        simp only [hneg, if_true, hne, ne_eq, not_false_eq_true, vExit, Nat.lt_irrefl, if_false, Bool.false_eq_true] at h ⊢
         obtain ⟨k, hk, h1, h2⟩ := kRetry_err _ _ _ hneg
-        exact ⟨k, hk, by omega, by rw [h2], by rw [h1, mapErr_idem]⟩
+        exact ⟨k, hk, by omega, by rw [h2], by rw [h1]⟩
       · have : ¬ (kRetry [d] false outs).r < 0 := by omega
         simp [this, vExit] at h
     | _ :: _ :: _, hc => simp at hc
@@ -1196,6 +1213,7 @@ structure St (s : H) : Prop where
   c1 : ∀ c ∈ s.cbs, c.2 = 0 → c.1 ∈ s.W ∧ c.1 ∉ s.cancelled
   c2 : ∀ c ∈ s.cbs, c.2 ≠ 0 → c.1 ∉ s.W ∧ Fail s c.1 c.2
   k1 : ∀ x ∈ s.cancelled, x ∈ s.cbs.map (·.1) ∨ x ∈ s.cq.map (·.1.seq)
+  pq : ∀ d ∈ s.wq, prepOk d = true      -- queued requests passed uv__udp_check_before_send
 
 theorem Fail.mono {s t : H} {q : Nat} {st : Int} (h : Fail s q st) (hcan : t.cancelled = s.cancelled)
     (hk : ∃ l, t.klog = s.klog ++ l) : Fail t q st := by
@@ -1205,16 +1223,17 @@ theorem Fail.mono {s t : H} {q : Nat} {st : Int} (h : Fail s q st) (hcan : t.can
   · exact Or.inr ⟨by rw [hcan]; exact h1, k, by rw [hl]; exact List.mem_append_left _ hk1, hk2⟩
 
 theorem St.of_eq {s t : H} (h : St s) (h1 : t.cq = s.cq) (h2 : t.cbs = s.cbs) (h3 : t.klog = s.klog)
-    (h4 : t.cancelled = s.cancelled) : St t := by
-  obtain ⟨a, b, c, d, e⟩ := h
+    (h4 : t.cancelled = s.cancelled) (h5 : t.wq = s.wq) : St t := by
+  obtain ⟨a, b, c, d, e, pq⟩ := h
   have hW : t.W = s.W := by simp [H.W, H.wire, h3]
   have hF : ∀ q st, Fail s q st → Fail t q st := fun q st hf => hf.mono h4 ⟨[], by simp [h3]⟩
-  refine ⟨?_, ?_, ?_, ?_, ?_⟩ <;> simp only [h1, h2, h4, hW]
+  refine ⟨?_, ?_, ?_, ?_, ?_, ?_⟩ <;> simp only [h1, h2, h4, h5, hW]
   · exact fun p hp hn => ⟨(a p hp hn).1, hF _ _ (a p hp hn).2⟩
   · exact b
   · exact c
   · exact fun p hp hn => ⟨(d p hp hn).1, hF _ _ (d p hp hn).2⟩
   · exact e
+  · exact pq
 
 /-- the wire and the completed queue grow, the log is appended to, callbacks and cancellations unchanged -/
 theorem St.grow {s t : H} (hs : St s) (hcb : t.cbs = s.cbs) (hcan : t.cancelled = s.cancelled)
@@ -1222,9 +1241,10 @@ theorem St.grow {s t : H} (hs : St s) (hcb : t.cbs = s.cbs) (hcan : t.cancelled 
     (hXcq : ∀ p ∈ s.cq, p.1.seq ∉ X) (hXcb : ∀ c ∈ s.cbs, c.1 ∉ X)
     (new : List (Dgram × Int)) (hcq : t.cq = s.cq ++ new)
     (hneg : ∀ p ∈ new, p.2 < 0 → p.1.seq ∉ t.W ∧ Fail t p.1.seq p.2)
-    (hpos : ∀ p ∈ new, 0 ≤ p.2 → p.1.seq ∈ t.W ∧ p.1.seq ∉ t.cancelled) : St t := by
-  obtain ⟨a, b, c, d, e⟩ := hs
-  refine ⟨?_, ?_, ?_, ?_, ?_⟩
+    (hpos : ∀ p ∈ new, 0 ≤ p.2 → p.1.seq ∈ t.W ∧ p.1.seq ∉ t.cancelled)
+    (hwq : ∀ d ∈ t.wq, d ∈ s.wq) : St t := by
+  obtain ⟨a, b, c, d, e, pq⟩ := hs
+  refine ⟨?_, ?_, ?_, ?_, ?_, fun d hd => pq d (hwq d hd)⟩
   · intro p hp hn
     rw [hcq, List.mem_append] at hp
     rcases hp with hp | hp
@@ -1333,7 +1353,7 @@ theorem sendmsgAgain_st (f : Nat) (s : H) (h : Inv s) (hs : St s) : St (sendmsgA
           obtain ⟨d, hd, rfl⟩ := List.mem_map.mp hx
           exact ⟨d, List.mem_of_mem_take hd, rfl⟩
         refine hs.grow ?_ ?_ ?_ ((s.wq.take v.ret.toNat).map (·.seq)) ?_ ?_ ?_
-          ((s.wq.take v.ret.toNat).map (fun d => (d, (d.bytes : Int)))) ?_ ?_ ?_
+          ((s.wq.take v.ret.toNat).map (fun d => (d, (d.bytes : Int)))) ?_ ?_ ?_ (fun d hd => List.mem_of_mem_drop hd)
         · rfl
         · rfl
         · exact ⟨v.log, rfl⟩
@@ -1354,15 +1374,15 @@ theorem sendmsgAgain_st (f : Nat) (s : H) (h : Inv s) (hs : St s) : St (sendmsgA
           simp only [H.W, H.wire, wireOf_append, hv1, List.map_append, List.mem_append]
           exact Or.inr (List.mem_map.mpr ⟨d, hd, rfl⟩)
       split
-      · exact kst.of_eq rfl rfl rfl rfl
+      · exact kst.of_eq rfl rfl rfl rfl rfl
       · exact ih _ key kst
     · rename_i hret
       have hneg : (sendmsgv (s.wq.take 20) s.souts).ret < 0 := by omega
       have hv := sendmsgv_neg (s.wq.take 20) s.souts hneg
-      have herr := sendmsgv_err (s.wq.take 20) s.souts hneg
+      have herr := sendmsgv_err (s.wq.take 20) s.souts (fun d hd => hs.pq d (List.mem_of_mem_take hd)) hneg
       generalize sendmsgv (s.wq.take 20) s.souts = v at hv hret herr hneg
       have kst : St { s with souts := v.outs, klog := s.klog ++ v.log } := by
-        refine hs.grow ?_ ?_ ?_ [] ?_ (by simp) (by simp) [] ?_ (by simp) (by simp)
+        refine hs.grow ?_ ?_ ?_ [] ?_ (by simp) (by simp) [] ?_ (by simp) (by simp) (fun d hd => hd)
         · rfl
         · rfl
         · exact ⟨v.log, rfl⟩
@@ -1374,9 +1394,10 @@ theorem sendmsgAgain_st (f : Nat) (s : H) (h : Inv s) (hs : St s) : St (sendmsgA
         · exact kst
         · rename_i d rest hwq
           have hd : d ∈ s.wq := by rw [hwq]; exact List.mem_cons_self ..
-          refine St.of_eq (s := { s with souts := v.outs, klog := s.klog ++ v.log, cq := s.cq ++ [(d, v.ret)] })
-            ?_ rfl rfl rfl rfl
+          refine St.of_eq (s := { s with souts := v.outs, klog := s.klog ++ v.log, cq := s.cq ++ [(d, v.ret)],
+                                         wq := rest }) ?_ rfl rfl rfl rfl rfl
           refine hs.grow ?_ ?_ ?_ [] ?_ (by simp) (by simp) [(d, v.ret)] ?_ ?_ ?_
+            (fun d' hd' => by rw [hwq]; exact List.mem_cons_of_mem _ hd')
           · rfl
           · rfl
           · exact ⟨v.log, rfl⟩
@@ -1417,22 +1438,34 @@ theorem enqueue_inv (s : H) (d : Dgram) (h : Inv s) (hd : d.seq = s.nseq) :
   · rw [← List.append_assoc]; exact e.append (List.Sublist.refl _)
   · exact i.append (List.Sublist.refl _)
 
-theorem udpSend_st (s : H) (d : Dgram) (en : Bool) (h : Inv s) (hs : St s) (hd : d.seq = s.nseq) :
+theorem St.enq {s t : H} (hs : St s) (d : Dgram) (hp : prepOk d = true) (h1 : t.cq = s.cq) (h2 : t.cbs = s.cbs)
+    (h3 : t.klog = s.klog) (h4 : t.cancelled = s.cancelled) (h5 : t.wq = s.wq ++ [d]) : St t := by
+  have := hs.of_eq (t := { t with wq := s.wq }) h1 h2 h3 h4 rfl
+  obtain ⟨a, b, c, e, k, pq⟩ := this
+  refine ⟨a, b, c, e, k, ?_⟩
+  intro x hx
+  rw [h5, List.mem_append, List.mem_singleton] at hx
+  rcases hx with hx | rfl
+  · exact pq x hx
+  · exact hp
+
+theorem udpSend_st (s : H) (d : Dgram) (en : Bool) (h : Inv s) (hs : St s) (hd : d.seq = s.nseq)
+    (hp : prepOk d = true) :
     St (udpSend { s with nseq := s.nseq + 1, submitted := s.submitted ++ [d] } d en).1 := by
   unfold udpSend
   simp only
   split
-  · exact hs.of_eq rfl rfl rfl rfl
+  · exact hs.of_eq rfl rfl rfl rfl rfl
   · have key := enqueue_inv s d h hd
     have kst : St { s with nseq := s.nseq + 1, submitted := s.submitted ++ [d], activeReqs := s.activeReqs + 1,
                            sqSize := s.sqSize + d.bytes, sqCount := s.sqCount + 1, wq := s.wq ++ [d],
-                           active := true, accepted := s.accepted ++ [d] } := hs.of_eq rfl rfl rfl rfl
+                           active := true, accepted := s.accepted ++ [d] } := hs.enq d hp rfl rfl rfl rfl rfl
     split
     · have k2 := uvSendmsg_st _ key kst
       split
-      · exact k2.of_eq rfl rfl rfl rfl
+      · exact k2.of_eq rfl rfl rfl rfl rfl
       · exact k2
-    · exact kst.of_eq rfl rfl rfl rfl
+    · exact kst.of_eq rfl rfl rfl rfl rfl
 
 theorem st_emit {s : H} (h : St s) (e : Ev) (he : ∀ q st, e ≠ .sendCb q st) : St (emit s e) := by
   apply h.of_eq <;> try rfl
@@ -1453,25 +1486,35 @@ theorem applyOp_st (s : H) (op : Op) (h : Inv s) (hs : St s) : St (applyOp s op)
       simp only
       split
       · apply st_emit _ _ (by intros; simp)
-        exact hs.of_eq rfl rfl rfl rfl
-      · have := udpSend_st s ⟨s.nseq, bufs, dest⟩ en h hs rfl
+        exact hs.of_eq rfl rfl rfl rfl rfl
+      · rename_i hchk
+        have hp : prepOk ⟨s.nseq, bufs, dest⟩ = true := by
+          simp only [prepOk, decide_eq_true_eq]
+          simp only [checkBeforeSend] at hchk
+          by_cases h2 : dest > 2
+          · exfalso; apply hchk
+            split; · decide
+            split; · decide
+            simp [h2, UV_EINVAL]
+          · omega
+        have := udpSend_st s ⟨s.nseq, bufs, dest⟩ en h hs rfl hp
         generalize udpSend _ _ _ = r at this
         exact st_emit this _ (by intros; simp)
     | trySend bufs dest =>
       simp only
       split
       · apply st_emit _ _ (by intros; simp)
-        exact hs.of_eq rfl rfl rfl rfl
+        exact hs.of_eq rfl rfl rfl rfl rfl
       · split
         · apply st_emit _ _ (by intros; simp)
-          exact hs.of_eq rfl rfl rfl rfl
+          exact hs.of_eq rfl rfl rfl rfl rfl
         · split
           · apply st_emit _ _ (by intros; simp)
-            exact hs.of_eq rfl rfl rfl rfl
+            exact hs.of_eq rfl rfl rfl rfl rfl
           · apply st_emit _ _ (by intros; simp)
             have hsp := sendmsg1_spec ⟨s.nseq, bufs, dest⟩ s.souts
             refine hs.grow ?_ ?_ ?_
-              ((wireOf (sendmsg1 ⟨s.nseq, bufs, dest⟩ s.souts).log).map (·.seq)) ?_ ?_ ?_ [] ?_ (by simp) (by simp)
+              ((wireOf (sendmsg1 ⟨s.nseq, bufs, dest⟩ s.souts).log).map (·.seq)) ?_ ?_ ?_ [] ?_ (by simp) (by simp) (fun d hd => hd)
             · rfl
             · rfl
             · exact ⟨(sendmsg1 ⟨s.nseq, bufs, dest⟩ s.souts).log, rfl⟩
@@ -1490,13 +1533,13 @@ theorem applyOp_st (s : H) (op : Op) (h : Inv s) (hs : St s) : St (applyOp s op)
       simp only
       split
       · apply st_emit _ _ (by intros; simp)
-        exact hs.of_eq rfl rfl rfl rfl
+        exact hs.of_eq rfl rfl rfl rfl rfl
       · split
         · apply st_emit _ _ (by intros; simp)
-          exact hs.of_eq rfl rfl rfl rfl
+          exact hs.of_eq rfl rfl rfl rfl rfl
         · split
           · apply st_emit _ _ (by intros; simp)
-            exact hs.of_eq rfl rfl rfl rfl
+            exact hs.of_eq rfl rfl rfl rfl rfl
           · apply st_emit _ _ (by intros; simp)
             have hsp := sendmsgv_spec (mkDgrams s.nseq count bufs dest) s.souts
             have hsub : ∀ x ∈ (wireOf (sendmsgv (mkDgrams s.nseq count bufs dest) s.souts).log).map (·.seq), s.nseq ≤ x := by
@@ -1506,7 +1549,7 @@ theorem applyOp_st (s : H) (op : Op) (h : Inv s) (hs : St s) : St (applyOp s op)
               · rw [(hsp.1 hp).1] at hd; exact mem_mkDgrams (List.mem_of_mem_take hd)
               · rw [hsp.2 (by omega)] at hd; simp at hd
             refine hs.grow ?_ ?_ ?_
-              ((wireOf (sendmsgv (mkDgrams s.nseq count bufs dest) s.souts).log).map (·.seq)) ?_ ?_ ?_ [] ?_ (by simp) (by simp)
+              ((wireOf (sendmsgv (mkDgrams s.nseq count bufs dest) s.souts).log).map (·.seq)) ?_ ?_ ?_ [] ?_ (by simp) (by simp) (fun d hd => hd)
             · rfl
             · rfl
             · exact ⟨(sendmsgv (mkDgrams s.nseq count bufs dest) s.souts).log, rfl⟩
@@ -1522,14 +1565,14 @@ theorem applyOp_st (s : H) (op : Op) (h : Inv s) (hs : St s) : St (applyOp s op)
       split
       · exact st_emit hs _ (by intros; simp)
       · apply st_emit _ _ (by intros; simp)
-        exact hs.of_eq rfl rfl rfl rfl
+        exact hs.of_eq rfl rfl rfl rfl rfl
     | recvStop =>
       simp only
       apply st_emit _ _ (by intros; simp)
-      exact hs.of_eq rfl rfl rfl rfl
+      exact hs.of_eq rfl rfl rfl rfl rfl
     | close =>
       simp only
-      exact hs.of_eq rfl rfl rfl rfl
+      exact hs.of_eq rfl rfl rfl rfl rfl
 
 /-- the combined invariant -/
 def Inv2 (s : H) : Prop := Inv s ∧ St s
@@ -1542,13 +1585,13 @@ theorem applyOps_inv2 (ops : List Op) (s : H) (h : Inv2 s) : Inv2 (applyOps s op
 theorem St.pop {s t : H} (hs : St s) {d : Dgram} {st : Int} {rest : List (Dgram × Int)}
     (hcq : s.cq = (d, st) :: rest) (h1 : t.cq = rest)
     (h2 : t.cbs = s.cbs ++ [(d.seq, if st ≥ 0 then 0 else st)]) (h3 : t.klog = s.klog)
-    (h4 : t.cancelled = s.cancelled) : St t := by
-  obtain ⟨a, b, c, e, k⟩ := hs
+    (h4 : t.cancelled = s.cancelled) (h5 : t.wq = s.wq) : St t := by
+  obtain ⟨a, b, c, e, k, pq⟩ := hs
   have hW : t.W = s.W := by simp [H.W, H.wire, h3]
   have hF : ∀ q x, Fail s q x → Fail t q x := fun q x hf => hf.mono h4 ⟨[], by simp [h3]⟩
   have hin : (d, st) ∈ s.cq := by rw [hcq]; exact List.mem_cons_self ..
   have hsub : ∀ p ∈ rest, p ∈ s.cq := fun p hp => by rw [hcq]; exact List.mem_cons_of_mem _ hp
-  refine ⟨?_, ?_, ?_, ?_, ?_⟩ <;> simp only [h1, h2, h4, hW]
+  refine ⟨?_, ?_, ?_, ?_, ?_, by rw [h5]; exact pq⟩ <;> simp only [h1, h2, h4, hW]
   · intro p hp hn
     exact ⟨(a p (hsub p hp) hn).1, hF _ _ (a p (hsub p hp) hn).2⟩
   · intro p hp hn
@@ -1589,15 +1632,15 @@ theorem runCompletedLoop_inv2 (sc : Script) (f : Nat) (s : H) (h : Inv2 s) : Inv
     · rename_i d st rest hcq
       apply ih
       apply applyOps_inv2
-      exact ⟨inv_pop h.1 hcq _, h.2.pop hcq rfl (cbs_emit_send _ _ _) rfl rfl⟩
+      exact ⟨inv_pop h.1 hcq _, h.2.pop hcq rfl (cbs_emit_send _ _ _) rfl rfl rfl⟩
 
 theorem runCompleted_inv2 (sc : Script) (s : H) (h : Inv2 s) : Inv2 (runCompleted sc s) := by
   unfold runCompleted
   simp only
   have h1 : Inv2 { s with processing := true } :=
-    ⟨h.1.of_eq rfl rfl rfl rfl rfl rfl rfl rfl rfl rfl, h.2.of_eq rfl rfl rfl rfl⟩
+    ⟨h.1.of_eq rfl rfl rfl rfl rfl rfl rfl rfl rfl rfl, h.2.of_eq rfl rfl rfl rfl rfl⟩
   have h2 := runCompletedLoop_inv2 sc s.cq.length _ h1
-  split <;> exact ⟨h2.1.of_eq rfl rfl rfl rfl rfl rfl rfl rfl rfl rfl, h2.2.of_eq rfl rfl rfl rfl⟩
+  split <;> exact ⟨h2.1.of_eq rfl rfl rfl rfl rfl rfl rfl rfl rfl rfl, h2.2.of_eq rfl rfl rfl rfl rfl⟩
 
 theorem ioOut_inv2 (sc : Script) (s : H) (h : Inv2 s) : Inv2 (ioOut sc s) := by
   unfold ioOut; split
@@ -1609,16 +1652,16 @@ theorem Inv2.of_eq {s t : H} (h : Inv2 s)
     (h4 : t.accepted = s.accepted) (h5 : t.cbs = s.cbs) (h6 : t.cq = s.cq) (h7 : t.wq = s.wq)
     (h8 : t.klog = s.klog) (h9 : t.submitted = s.submitted) (h10 : t.nseq = s.nseq)
     (h11 : t.cancelled = s.cancelled) : Inv2 t :=
-  ⟨h.1.of_eq h1 h2 h3 h4 h5 h6 h7 h8 h9 h10, h.2.of_eq h6 h5 h8 h11⟩
+  ⟨h.1.of_eq h1 h2 h3 h4 h5 h6 h7 h8 h9 h10, h.2.of_eq h6 h5 h8 h11 h7⟩
 
 theorem inv2_emit {s : H} (h : Inv2 s) (e : Ev) (he : ∀ q st, e ≠ .sendCb q st) : Inv2 (emit s e) :=
   ⟨inv_emit h.1 e he, st_emit h.2 e he⟩
 
 theorem St.cancel {s t : H} (hi : Inv s) (hs : St s)
     (h1 : t.cq = s.cq ++ s.wq.map (fun d => (d, UV_ECANCELED))) (h2 : t.cbs = s.cbs) (h3 : t.klog = s.klog)
-    (h4 : t.cancelled = s.cancelled ++ s.wq.map (·.seq)) : St t := by
+    (h4 : t.cancelled = s.cancelled ++ s.wq.map (·.seq)) (h5 : t.wq = []) : St t := by
   obtain ⟨d1, d2, _, _, d5, _⟩ := inv_support hi
-  obtain ⟨a, b, c, e, k⟩ := hs
+  obtain ⟨a, b, c, e, k, _⟩ := hs
   have hW : t.W = s.W := by simp [H.W, H.wire, h3]
   have hnc : ∀ q, q ∉ s.cancelled → (∀ d ∈ s.wq, q ≠ d.seq) → q ∉ t.cancelled := by
     intro q f1 hq
@@ -1632,7 +1675,7 @@ theorem St.cancel {s t : H} (hi : Inv s) (hs : St s)
     rcases hf with ⟨f1, f2⟩ | ⟨f1, kk, hk1, hk2⟩
     · exact Or.inl ⟨by rw [h4]; exact List.mem_append_left _ f1, f2⟩
     · exact Or.inr ⟨hnc q f1 hq, kk, by rw [h3]; exact hk1, hk2⟩
-  refine ⟨?_, ?_, ?_, ?_, ?_⟩
+  refine ⟨?_, ?_, ?_, ?_, ?_, by rw [h5]; simp⟩
   · intro p hp hn
     rw [hW]
     rw [h1, List.mem_append] at hp
@@ -1667,7 +1710,7 @@ theorem St.cancel {s t : H} (hi : Inv s) (hs : St s)
 theorem cancel_inv2 (s : H) (h : Inv2 s) :
     Inv2 { s with cq := s.cq ++ s.wq.map (fun d => (d, UV_ECANCELED)), wq := [],
                   cancelled := s.cancelled ++ s.wq.map (·.seq) } := by
-  refine ⟨?_, St.cancel h.1 h.2 rfl rfl rfl rfl⟩
+  refine ⟨?_, St.cancel h.1 h.2 rfl rfl rfl rfl rfl⟩
   obtain ⟨a, b, c, d', e, g, i⟩ := h.1
   have ho : (s.cq ++ s.wq.map (fun d => (d, UV_ECANCELED))).map (·.1) ++ [] = s.cq.map (·.1) ++ s.wq := by
     simp [List.map_map, Function.comp_def]
@@ -1724,6 +1767,6 @@ theorem uvRun_inv2 (sc : Script) (s : H) (q : List RItem) (h : Inv2 s) : Inv2 (u
   · exact h2
 
 theorem inv2_init (c m : Bool) : Inv2 { connected := c, mmsg := m } := by
-  refine ⟨inv_init c m, ?_, ?_, ?_, ?_, ?_⟩ <;> simp [H.cbs]
+  refine ⟨inv_init c m, ?_, ?_, ?_, ?_, ?_, ?_⟩ <;> simp [H.cbs]
 
 end UvModel.Udp
